@@ -489,6 +489,22 @@ func equalValues(left, right any) bool {
 	if !reflect.TypeOf(left).Comparable() || !reflect.TypeOf(right).Comparable() {
 		return false
 	}
+	switch reflect.TypeOf(left).Kind() {
+	case reflect.Array, reflect.Struct:
+		return equalComposites(left, right)
+	}
+	return left == right
+}
+
+// equalComposites compares arrays and structs. Their types are comparable but
+// == panics when an element or field holds a slice or a map, those are never
+// equal.
+func equalComposites(left, right any) (eq bool) {
+	defer func() {
+		if recover() != nil {
+			eq = false
+		}
+	}()
 	return left == right
 }
 
